@@ -5,7 +5,7 @@
     instance on every run. *)
 From Coq Require Import NArith ZArith QArith Qabs List Bool.
 From SV Require Import Bin.Struct Fmt.DmxCodes Fmt.DmxCodesProofs Fmt.DmxBin Fmt.DmxBinProofs Fmt.DmxKv1 Fmt.DmxKv1Proofs
-  Fmt.DmxScalar Fmt.DmxScalarProofs Fmt.DmxTyped Fmt.DmxTypedProofs Text.Str Text.Escape Text.Tokenizer Text.TokGen Fmt.DmxKv2 Fmt.DmxKv2Proofs Fmt.DmxKv2Nested Fmt.DmxKv2NestedProofs Fmt.DmxKv2Inst Num.Dec6 Fmt.DmxValText Fmt.DmxValTextProofs Fmt.DmxHeader Fmt.DmxHeaderProofs Fmt.DmxMembers Fmt.DmxMembersProofs Fmt.DmxMembersParse Fmt.DmxMembersParseProofs Fmt.DmxMembersKv2 Fmt.DmxMembersKv2Proofs Fmt.DmxKv1Sel Fmt.DmxKv1SelProofs Fmt.DmxKv2Graph Fmt.DmxKv2GraphProofs Fmt.DmxKv2GraphUnique Fmt.DmxKv2GraphFuel Fmt.DmxKv2GraphCull Fmt.DmxKv2GraphWhole Fmt.DmxPropertyBin Fmt.DmxPropertyKv2 Gen.DmxCodes_gen.
+  Fmt.DmxScalar Fmt.DmxScalarProofs Fmt.DmxTyped Fmt.DmxTypedProofs Text.Str Text.Escape Text.Tokenizer Text.TokGen Fmt.DmxKv2 Fmt.DmxKv2Proofs Fmt.DmxKv2Nested Fmt.DmxKv2NestedProofs Fmt.DmxKv2Inst Num.Dec6 Fmt.DmxValText Fmt.DmxValTextProofs Fmt.DmxHeader Fmt.DmxHeaderProofs Fmt.DmxMembers Fmt.DmxMembersProofs Fmt.DmxMembersParse Fmt.DmxMembersParseProofs Fmt.DmxMembersKv2 Fmt.DmxMembersKv2Proofs Fmt.DmxKv1Sel Fmt.DmxKv1SelProofs Fmt.DmxKv2Graph Fmt.DmxKv2GraphProofs Fmt.DmxKv2GraphUnique Fmt.DmxKv2GraphFuel Fmt.DmxKv2GraphCull Fmt.DmxKv2GraphLink Fmt.DmxKv2GraphWhole Fmt.DmxPropertyBin Fmt.DmxPropertyKv2 Gen.DmxCodes_gen.
 Import ListNotations.
 
 (** The premises of the theorems below, for the configuration generated from today's source.  The check proves
@@ -587,6 +587,11 @@ Proof. exact nest_complete. Qed.
 Theorem kv2_inline_blocks_are_not_roots : forall g isroot f i, Forall (fun j => isroot j = false) (List.tl (blocks g isroot f i)).
 Proof. exact inline_blocks_not_roots. Qed.
 
+(** The graph the fix-up pass builds ([link]) written out again with references by id is the document that was read, for
+    every document: [link d] is determined by [d] up to the numbering of its elements (the converse of [kv2_link_flatten]). *)
+Theorem kv2_flatten_link : forall d g, link d = Some g -> flatten g = d.
+Proof. exact flatten_link. Qed.
+
 (** [cull_uuid]: the tree written is the tree written without the option, with the id of every inline block left out; top-level
     blocks keep theirs.  With [kv2_inline_blocks_are_not_roots] no reference names a block without id. *)
 Theorem kv2_cull_uuid_erases_inline_ids_only : forall g isroot,
@@ -684,7 +689,9 @@ Proof. exact c14_property_binary_example. Qed.
     carry: [doc_ok]; every element reachable from the exported one): flat layout — the exported text, tokenized, parsed and
     linked is [g]; nested layout — the tree of blocks [d] the root rule gives is parsed back from its text, contains every
     element exactly once (sharing, cycles: by reference to a top-level block), the exported one first, and the elements
-    the reader registers are, up to order, the flat document of [g], whose references resolve to [g]. *)
+    the reader registers are, up to order, the flat document of [g], whose references resolve to [g]; the graph [g'] the fix-up
+    pass builds from them has that document as its flat document — [g'] and [g] are the same graph up to the order in which
+    the elements are listed. *)
 Theorem c14_property_kv2 :
   forall (T : tables) (o : opts) (fold : Str.str -> Str.str) (vtnames : list Str.str) (c : rootcfg),
     kv2_tables_ok T = true -> kv2_opts_ok o = true -> vtnames_ok T fold vtnames = true -> root_rule_ok c = true ->
@@ -695,6 +702,7 @@ Theorem c14_property_kv2 :
         written_once d = true /\
         Permutation.Permutation (unnest d) (flatten g) /\
         (exists rest, unnest d = flat_elem (ids g) (nth 0 g dflt_gelem) :: rest) /\
+        (exists g', link (unnest d) = Some g' /\ flatten g' = unnest d) /\
         link (flatten g) = Some g.
 Proof. exact c14_property_kv2_gen. Qed.
 
